@@ -133,18 +133,38 @@ def _sfun(tb, f):
 
 
 def run(case):
-    from pyannote.core import Timeline
+    from pyannote.core import Timeline, Segment
     tb = TB(case["regime"])
     tb.enter()
     try:
         regs = [Timeline() for _ in range(NREG)]
         obs = []
+        kept = []
         for o in case["ops"]:
             k = o[0]
             if k == "new":
                 src = [tb.S(s) for s in o[2]]
-                # any iterable: alternate list / generator / set
-                regs[o[1]] = Timeline(segments=(x for x in src)) if len(src) % 2 else Timeline(segments=src)
+                # any iterable: list / generator / set / tuple by turns. A caller-owned container also feeds a second
+                # timeline that is edited at once, is then edited itself, and must never change under timeline edits
+                kind = len(src) % 4
+                if kind == 1:
+                    regs[o[1]] = Timeline(segments=(x for x in src))
+                else:
+                    box = list(src) if kind == 0 else set(src) if kind == 2 else tuple(src)
+                    regs[o[1]] = Timeline(segments=box)
+                    twin = Timeline(segments=box)
+                    far = max([abs(v) for x in src for v in (x.start, x.end)] + [0]) + 1000
+                    twin.add(Segment(far, far + 7))
+                    for x in list(twin)[:1]:
+                        twin.remove(x)
+                    kept.append((box, type(box)(box)))
+                    if kind == 0:
+                        extra_box = list(box)
+                        extra_box.append(Segment(far + 10, far + 17))
+                    elif kind == 2 and len(kept) % 2:
+                        # the caller goes on using its set; the snapshot follows
+                        box.add(Segment(far + 10, far + 17))
+                        kept[-1] = (box, set(box))
             elif k == "add":
                 ret = regs[o[1]].add(tb.S(o[2]))
                 assert ret is regs[o[1]]
@@ -185,6 +205,9 @@ def run(case):
             elif k == "cmp":
                 a, b = regs[o[1]], regs[o[2]]
                 obs.append({"eq": bool(a == b), "ne": bool(a != b), "in": bool(b in a)})
+            if k not in ("read", "cmp"):
+                for box, snap in kept:
+                    assert box == snap, "a timeline edit changed the container a timeline was built from"
         return {"obs": obs}
     finally:
         tb.leave()
